@@ -1,9 +1,10 @@
 (* C16 -- pinned property theorems (nothing else lives here).
    number_token / number_chars_model / read_model are the impl-mirror of src/parser/lexer.rs and
    parse_number_from_string (coq/C16/Model.v); pos_value r ds = sum of d_i * r^i (most significant digit first). *)
-From Coq Require Import List NArith ZArith Bool String.
+From Coq Require Import List NArith ZArith Bool String Reals Lia Lra.
+From Flocq Require Import Core.
 Import ListNotations.
-From V Require Import C16.Model C16.Proofs C16.Cases.
+From V Require Import C16.Model C16.Proofs C16.Cases C16.Round C16.RoundProofs.
 Open Scope N_scope.
 
 (* the Horner evaluation standing for i64::from_str_radix / Integer::from_str_radix is the positional sum *)
@@ -62,8 +63,8 @@ Print Assumptions dec_fraction_exact.
 
 (* whenever the decimal -> binary64 conversion of the model returns q * 2^sh, that is the correctly rounded value of
    m * 10^e: |m*10^e - q*2^sh| <= 2^sh / 2, a tie only with q even, q of exactly 53 bits (or 2^53 after a carry) unless
-   sh is the smallest exponent.  PARTIAL: not proved that dec_round always returns (Some ...), and the statement is in
-   integer arithmetic, not linked to Flocq's round_NE. *)
+   sh is the smallest exponent.  (Integer-arithmetic form, kept; superseded by dec_round_total, dec_to_float_correct and
+   dec_to_float_is_flocq_round below, which prove totality and the link to an independent definition of rounding.) *)
 Theorem dec_to_float_correct_partial : forall m e q sh, dec_round m e = Some (q, sh) ->
   correctly_rounded (dec_num m e) (dec_den e) q sh.
 Proof. exact dec_round_explicit. Qed.
@@ -112,3 +113,80 @@ Example ex_partial_disagreement :
   number_chars_model (cs "1_") = MNum (NInt 1) /\ read_model (cs "1_ .") = MNotNum /\ agree (cs "1_") = false /\
   number_chars_model (cs "1_/") = MNum (NInt 1) /\ agree (cs "1_/") = false.
 Proof. exact partial_disagreement. Qed.
+
+(* ================================================================ the conversion against an independent specification
+   (coq/C16/Round.v: dec_value m e = m * 10^e as a real number; is_nearest_even x q sh = (q, sh) is a canonical finite
+   binary64, no number m' * 2^e' with |m'| < 2^53 and e' >= -1074 is nearer to x, and q is even if another one is equally near;
+   rounds_to x f = below the overflow threshold 2^1024 - 2^970 the result is FBits b with is_nearest_even x (decode b), from the
+   threshold on it is FInf (which number_chars/read turn into a syntax error)) *)
+
+(* no fuel exhaustion: the exponent estimate of dec_round is never off by more than what the attempts cover, for every
+   positive m and every e; dec_to_float never gives up *)
+Theorem dec_round_total : forall m e, (0 < m)%Z -> exists q sh, dec_round m e = Some (q, sh).
+Proof. exact dec_round_total_lemma. Qed.
+Print Assumptions dec_round_total.
+
+Theorem dec_to_float_total : forall m e nd, (0 <= m)%Z -> dec_to_float m e nd <> FNone.
+Proof. exact dec_to_float_total_lemma. Qed.
+Print Assumptions dec_to_float_total.
+
+(* every decimal m * 10^e with 0 <= m < 10^nd (any number of digits, any exponent): normal and subnormal results, underflow
+   to zero (including the shortcut e + nd < -330), overflow (including the shortcut e > 310) *)
+Theorem dec_to_float_correct : forall m e nd, in_range m nd -> rounds_to (dec_value m e) (dec_to_float m e nd).
+Proof. exact dec_to_float_rounds. Qed.
+Print Assumptions dec_to_float_correct.
+
+(* the same against Flocq's rounding operator *)
+Theorem dec_to_float_is_flocq_round : forall m e nd b, in_range m nd -> dec_to_float m e nd = FBits b ->
+  finite_bits b /\
+  fval64 (fst (decode b)) (snd (decode b)) = round radix2 (FLT_exp (-1074) 53) ZnearestE (dec_value m e).
+Proof. exact dec_to_float_flocq_lemma. Qed.
+Print Assumptions dec_to_float_is_flocq_round.
+
+(* the token texts handed to parse_float: I.F, I.FeX, I.Fe+X, I.Fe-X (I, F digit strings; e any non-digit) denote
+   dec(IF) * 10^(+-dec(X) - |F|) and are correctly rounded *)
+Theorem parse_float_correct : forall ip fp, all_digits ip -> all_digits fp ->
+  let m := Z.of_N (dec (ip ++ fp)) in
+  let fl := Z.of_nat (List.length fp) in
+  rounds_to (dec_value m (- fl)) (parse_float (ip ++ 46%N :: fp)) /\
+  (forall E d xs, is_digit E = false -> is_digit d = true ->
+     rounds_to (dec_value m (Z.of_N (dec (d :: xs)) - fl)) (parse_float (ip ++ 46%N :: fp ++ E :: d :: xs))) /\
+  (forall E xs, is_digit E = false ->
+     rounds_to (dec_value m (Z.of_N (dec xs) - fl)) (parse_float (ip ++ 46%N :: fp ++ E :: 43%N :: xs))) /\
+  (forall E xs, is_digit E = false ->
+     rounds_to (dec_value m (- Z.of_N (dec xs) - fl)) (parse_float (ip ++ 46%N :: fp ++ E :: 45%N :: xs))).
+Proof. exact parse_float_correct_lemma. Qed.
+Print Assumptions parse_float_correct.
+
+(* the specification determines the result, and implies the statement with only the finite binary64 numbers as competitors *)
+Theorem is_nearest_even_determines :
+  (forall x q1 s1 q2 s2, is_nearest_even x q1 s1 -> is_nearest_even x q2 s2 -> q1 = q2 /\ s1 = s2) /\
+  (forall x q sh, is_nearest_even x q sh -> is_nearest_even_finite x q sh).
+Proof. exact (conj nearest_even_unique nearest_even_finite). Qed.
+Print Assumptions is_nearest_even_determines.
+
+(* text -> float half of the float round trip: if the decimal m * 10^e printed for the finite double with bits b has that double
+   as its nearest-even binary64 (the contract of ryu's shortest round-trip output: HYPOTHESIS, the printer is not modelled), then
+   reading it returns exactly b.  PARTIAL: the printer side is assumed, and the sign is handled outside (the lexer reads the
+   magnitude). *)
+Theorem float_text_roundtrip_partial : forall b m e nd, finite_bits b -> in_range m nd ->
+  is_nearest_even (dec_value m e) (fst (decode b)) (snd (decode b)) ->
+  dec_to_float m e nd = FBits b.
+Proof. exact float_text_roundtrip_lemma. Qed.
+Print Assumptions float_text_roundtrip_partial.
+
+(* non-vacuity: 0.1 is in range and below the threshold; its nearest-even binary64 is 7205759403792794 * 2^-56, so the
+   hypotheses of dec_to_float_correct and float_text_roundtrip_partial are satisfiable *)
+Example ex_nearest_tenth : in_range 1 1 /\ finite_bits 4591870180066957722 /\
+  is_nearest_even (dec_value 1 (-1)) (fst (decode 4591870180066957722)) (snd (decode 4591870180066957722)) /\
+  decode 4591870180066957722 = (7205759403792794, -56)%Z.
+Proof.
+  assert (R : in_range 1 1) by (unfold in_range; lia).
+  split; [exact R|]. split; [unfold finite_bits; lia|]. split; [|vm_compute; reflexivity].
+  destruct (dec_to_float_correct 1 (-1) 1 R) as [A _].
+  destruct A as (b & Eb & _ & Hb).
+  - apply Rlt_le_trans with 1%R.
+    + unfold dec_value, powerRZ. change (Pos.to_nat 1) with 1%nat. rewrite pow_1. lra.
+    + apply (IZR_le 1). apply Z.leb_le. vm_compute. reflexivity.
+  - vm_compute in Eb. injection Eb as <-. exact Hb.
+Qed.
